@@ -83,6 +83,30 @@ func c06inputs(c *Ctx) []c06input {
 		add("self-described-tag", append([]byte{0xd9, 0xd9, 0xf7}, item.Bytes...))
 		add("self-described-tag", append([]byte{0xd9, 0xd9, 0xf7, 0xd9, 0xd9, 0xf7}, item.Bytes...))
 	}
+	// inputs whose honest cost is linear in their size, large enough that a quadratic step (a scan per
+	// entry instead of a lookup) turns milliseconds into minutes: a protected header with 120 000
+	// parameters all listed in crit, the same number of unprotected parameters, of COSE_Sign signatures
+	// (empty headers), and of key parameters
+	{
+		const big = 120000
+		pm := refcbor.NMap()
+		crit := refcbor.NArr()
+		for i := 0; i < big; i++ {
+			pm.Kids = append(pm.Kids, refcbor.NInt(int64(100000+i)), refcbor.NInt(0))
+			crit.Kids = append(crit.Kids, refcbor.NInt(int64(100000+i)))
+		}
+		pmCrit := refcbor.Clone(pm)
+		pmCrit.Kids = append([]*Node{refcbor.NInt(1), refcbor.NInt(-7), refcbor.NInt(2), crit}, pmCrit.Kids...)
+		canon, _ := refcbor.Parse(refcbor.Canon(pmCrit))
+		add("linear-cost/protected-all-critical", (&gen.WSign1{L: gen.WLayer{ProtMap: canon, Unprot: refcbor.NMap()}, Payload: []byte("p"), Sig: []byte{1, 2, 3}, Tagged: true}).Bytes())
+		add("linear-cost/protected-all-critical-bucket", refcbor.Encode(refcbor.NBstr(refcbor.Encode(canon))))
+		add("linear-cost/unprotected-many", (&gen.WSign1{L: gen.WLayer{ProtMap: refcbor.NMap(refcbor.NInt(1), refcbor.NInt(-7)), Unprot: pm}, Payload: []byte("p"), Sig: []byte{1, 2, 3}, Tagged: true}).Bytes())
+		km := refcbor.NMap(refcbor.NInt(1), refcbor.NInt(4), refcbor.NInt(-1), refcbor.NBstr([]byte("0123456789abcdef")))
+		for i := 0; i < big; i++ {
+			km.Kids = append(km.Kids, refcbor.NInt(int64(-100000-i)), refcbor.NInt(0))
+		}
+		add("linear-cost/key-many-parameters", refcbor.Encode(km))
+	}
 	for n := 0; n < c.N(4000, 100000); n++ {
 		add("random", r.Bytes(1+r.Intn(60)))
 	}
